@@ -276,8 +276,8 @@ def rule_window(ctx):
     if len(los) != 1 or len(his) != 1:
         raise AnalysisError("_get_common_time_period: the two datasets are cut with different windows: %s / %s" % (sorted(los), sorted(his)))
     any_st = list(bounds.values())[0][2]
-    cs_e = flow.resolve(list(bounds.values())[0][0], at=any_st, depth=3, stop=(prim, sec, mi, start, end))
-    ce_e = flow.resolve(list(bounds.values())[0][1], at=any_st, depth=3, stop=(prim, sec, mi, start, end))
+    cs_e = flow.resolve_join(list(bounds.values())[0][0], at=any_st, depth=3, stop=(prim, sec, mi, start, end))
+    ce_e = flow.resolve_join(list(bounds.values())[0][1], at=any_st, depth=3, stop=(prim, sec, mi, start, end))
 
     def symbols(e):
         """text of every extreme `<dataset>.time...min()/max()` with its identity wrappers -> symbol"""
@@ -549,8 +549,17 @@ def rule_swap(ctx):
         af = {flag: False, "self.index_with_primary": False}
         oksw = oksw and bool(rets_f) and all(passes_before(flow, s, r, af) for r in rets_f)
     else:
-        if not any("[[" in norm(st) for st in flow.stmts if isinstance(st, ast.Assign)) and not any(calls_in(st, ("flip", "flipud", "roll")) for st in flow.stmts):
-            pass
+        # the exchange written into the returned value: return pairs, ... with the index on the primary, return pairs[[1, 0]], ... otherwise
+        EXCH = ("pairs[[1,0]]", "pairs[[1,0],:]", "pairs[::-1]", "np.flipud(pairs)")
+        rets = [r for r in flow.stmts if isinstance(r, ast.Return) and isinstance(r.value, ast.Tuple) and r.value.elts
+                and "pairs" in norm(r.value.elts[0]) and "no_pairs" not in norm(r.value.elts[0])]
+        firsts = {}
+        for v in (True, False):
+            asm_ = {flag: v, "self.index_with_primary": v}
+            firsts[v] = sorted({str(norm(flow.resolve_under(r.value.elts[0], asm_, at=r, stop=("pairs",)))).replace(" ", "") for r in rets if flow.live_under(r, asm_)})
+        if rets:
+            fact = "returned with the index on the primary: %s; on the secondary: %s" % (firsts[True], firsts[False])
+            oksw = firsts[True] == ["pairs"] and bool(firsts[False]) and all(x in EXCH for x in firsts[False])
     ctx.ob("Collocator.spatial_search.swap", oksw, fact,
            "`if not <index with primary>: pairs[[0, 1]] = pairs[[1, 0]]` before every return of found pairs (GeoIndex row 0 = build side)",
            node=swaps[0] if swaps else f.node, func=f)
@@ -713,6 +722,20 @@ def rule_offsets(ctx):
     for st in walk_no_nested(sb.node):
         if isinstance(st, ast.Assign) and isinstance(st.targets[0], ast.Tuple) and calls_in(st.value, "spatial_search"):
             pn = norm(st.targets[0].elts[0])
+    if not adds and pn is not None:
+        # out of place: return np.array([pairs[0] + o1, pairs[1] + o2]), distances
+        sflow = Flow(sb)
+        for r_ in [x for x in sflow.stmts if isinstance(x, ast.Return) and isinstance(x.value, ast.Tuple) and len(x.value.elts) == 2]:
+            v_ = sflow.resolve(r_.value.elts[0], at=r_, depth=2, stop=(pn, o1, o2, d1, d2))
+            if isinstance(v_, ast.Call) and (dotted(v_.func) or "").split(".")[-1] in ("array", "vstack", "stack", "asarray") and len(v_.args) == 1 \
+                    and isinstance(v_.args[0], (ast.List, ast.Tuple)) and len(v_.args[0].elts) == 2:
+                for row in v_.args[0].elts:
+                    if isinstance(row, ast.BinOp) and isinstance(row.op, ast.Add):
+                        l_, r2_ = str(norm(row.left)), str(norm(row.right))
+                        if l_.startswith(pn + "["):
+                            adds[l_] = r2_
+                        elif r2_.startswith(pn + "["):
+                            adds[r2_] = l_
     oka = adds == {"%s[0]" % pn: o1, "%s[1]" % pn: o2}
     ctx.ob("Collocator._spatial_search_bin.offsets", okc and oka, "search(%s); additions %s" % ([norm(a) for a in ss[0].args[:4]] if ss else None, adds),
            "chunk of field 2 searched as first dataset, offset of field 1 added to row 0; field 4 second, offset of field 3 to row 1", node=sb.node, func=sb)
